@@ -356,6 +356,35 @@ Section Net.
   Definition row_of (sts : list station) (c : current A) : list (option A) :=
     map (fun s => Some (coeff zero c s)) sts.
 
+  (* ---------------- JSON round trip: ChargingNetwork.from_json(net.to_json()) ----------------
+     _to_dict stores every array as a nested list and _from_dict rebuilds np.array(list); station order (a JSON
+     object keeps key order), voltages, angles, limits, names and a matrix with at least one row come back as they
+     were.  A matrix WITHOUT rows (every constraint removed: shape (0, n)) is serialised as [] and comes back with
+     shape (0,) when `lossy` — the harness probes that on every run.  The reloaded network is then degenerate
+     (`jdeg`): pd.DataFrame(matrix, columns=station_ids) raises ValueError for n <> 1 stations, so
+     constraints_as_df and hence add_constraint raise — add_constraint AFTER it appended the limit to magnitudes —
+     and every constraint_current raises ValueError (matmul of a (0,) array with the schedule). *)
+  Record jnet := mkJ { jn : net; jdeg : bool }.
+
+  Definition json_reload (lossy : bool) (j : jnet) : jnet :=
+    mkJ (jn j) (jdeg j || (lossy && match cmat (jn j) with Some [] => true | _ => false end)).
+
+  Definition jstep (o : op) (j : jnet) : option string * jnet :=
+    let n := jn j in
+    if jdeg j && negb (Nat.eqb (List.length (stations n)) 1) then
+      match o with
+      | ORegister _ _ _ => (Some exc_register, j)
+      | OAdd c l _ =>
+          if known (stations n) c
+          then (Some "ValueError"%string,
+                mkJ (mkNet (stations n) (volts n) (angles n) (cmat n) (mags n ++ [l]) (cnames n)) true)
+          else (Some exc_unknown_station, j)
+      | ORemove nm => (fst (remove_constraint nm n), j)
+      | OUpdate nm _ _ _ => (if nmem nm (cnames n) then Some "ValueError"%string else Some exc_update_missing, j)
+      end
+    else let r := step o n in
+         (fst r, mkJ (snd r) (jdeg j && match cmat (snd r) with Some [] => true | _ => false end)).
+
   (* ---------------- vocabulary of the theorems ---------------- *)
   (* error outcome of an operation, read off the book-keeping *)
   Definition spec_err (o : op) (g : ghost) : option string :=
@@ -423,6 +452,7 @@ Arguments sched A : clear implicits.
 Arguments op A : clear implicits.
 Arguments live A : clear implicits.
 Arguments ghost A : clear implicits.
+Arguments jnet A : clear implicits.
 
 (* ---------------------------------------------------------------------------------------------
    executable instance over Q and the correspondence record.
@@ -456,6 +486,7 @@ Inductive cop : Type :=
 | CRemove (name : string)
 | CUpdate (name : string) (e : cexpr Q) (limit : Q) (new_name : option string)
 | CSnap                                   (* record the whole state *)
+| CJson                                   (* net = ChargingNetwork.from_json(net.to_json()); then record the state *)
 | CQuery (X : sched Q) (C : option (list string)) (T : option (list Z))
 | CQueryP (X : sched Q) (C : option (list string)) (T : option (list Z)) (trig : list (Q * Q)).   (* linear=False *)
 
@@ -466,11 +497,14 @@ Inductive obs : Type :=
 | BSnap (sts : list station) (vs phs : list Q) (mat : option qmatrix)
         (df_cols : list station) (df_idx : list string) (df_vals : qmatrix)
         (limits : list Q) (names : list string)
+| BSnapDeg (sts : list station) (vs phs : list Q) (df_err : option string) (limits : list Q) (names : list string)
+                                          (* matrix of shape (0,) after a lossy reload *)
 | BQuery (r : res qmatrix)
 | BQueryP (r : res (qmatrix * qmatrix)).
 
 Record c12case := {
   k_mode : inplace_mode;
+  k_lossy : bool;                          (* harness probe: a row-less matrix loses its shape in a JSON round trip *)
   k_ops : list cop;
   k_obs : list obs
 }.
@@ -481,29 +515,42 @@ Definition to_op (m : inplace_mode) (o : cop) : option (op Q) :=
   | CAdd e l nm => Some (OAdd (qdenote m e) l nm)
   | CRemove nm => Some (ORemove nm)
   | CUpdate nm e l nn => Some (OUpdate nm (qdenote m e) l nn)
-  | CSnap | CQuery _ _ _ | CQueryP _ _ _ _ => None
+  | CSnap | CJson | CQuery _ _ _ | CQueryP _ _ _ _ => None
   end.
 
-Definition observe (m : inplace_mode) (o : cop) (n : qnet) : obs * qnet :=
+Definition snapshot (j : jnet Q) : obs :=
+  let n := jn j in
+  if jdeg j then
+    BSnapDeg (stations n) (volts n) (angles n)
+             (if Nat.eqb (List.length (stations n)) 1 then None else Some "ValueError"%string) (mags n) (cnames n)
+  else
+    let df := constraints_as_df n in
+    BSnap (stations n) (volts n) (angles n) (cmat n) (f_cols df) (f_idx df) (f_rows df) (mags n) (cnames n).
+
+Definition observe (m : inplace_mode) (lossy : bool) (o : cop) (j : jnet Q) : obs * jnet Q :=
   match to_op m o with
   | Some o' =>
-      let r := step 0 o' n in
-      (BStep (fst r) (cnames (snd r)) (mags (snd r)), snd r)
+      let r := jstep 0 o' j in
+      (BStep (fst r) (cnames (jn (snd r))) (mags (jn (snd r))), snd r)
   | None =>
       match o with
-      | CQuery X C T => (BQuery (qcc X C T n), n)
-      | CQueryP X C T trig => (BQueryP (qccp X C T trig n), n)
-      | _ =>
-          let df := constraints_as_df n in
-          (BSnap (stations n) (volts n) (angles n) (cmat n) (f_cols df) (f_idx df) (f_rows df)
-                 (mags n) (cnames n), n)
+      | CQuery X C T =>
+          (BQuery (if jdeg j
+                   then match sel_cols (xw X) T with None => Err "IndexError"%string | Some _ => Err "ValueError"%string end
+                   else qcc X C T (jn j)), j)
+      | CQueryP X C T trig =>
+          (BQueryP (if jdeg j
+                    then match sel_cols (xw X) T with None => Err "IndexError"%string | Some _ => Err "ValueError"%string end
+                    else qccp X C T trig (jn j)), j)
+      | CJson => let j' := json_reload lossy j in (snapshot j', j')
+      | _ => (snapshot j, j)
       end
   end.
 
-Fixpoint observe_all (m : inplace_mode) (ops : list cop) (n : qnet) : list obs :=
+Fixpoint observe_all (m : inplace_mode) (lossy : bool) (ops : list cop) (j : jnet Q) : list obs :=
   match ops with
   | [] => []
-  | o :: r => let p := observe m o n in fst p :: observe_all m r (snd p)
+  | o :: r => let p := observe m lossy o j in fst p :: observe_all m lossy r (snd p)
   end.
 
 Definition str_list_eqb := list_eqb String.eqb.
@@ -518,6 +565,9 @@ Definition obs_eqb (a b : obs) : bool :=
       list_eqb Nat.eqb s1 s2 && qexact_list_eqb v1 v2 && qexact_list_eqb p1 p2
       && option_eqb qmatrix_eqb m1 m2 && list_eqb Nat.eqb c1 c2 && str_list_eqb i1 i2
       && qmatrix_eqb d1 d2 && qexact_list_eqb l1 l2 && str_list_eqb n1 n2
+  | BSnapDeg s1 v1 p1 e1 l1 n1, BSnapDeg s2 v2 p2 e2 l2 n2 =>
+      list_eqb Nat.eqb s1 s2 && qexact_list_eqb v1 v2 && qexact_list_eqb p1 p2
+      && option_eqb String.eqb e1 e2 && qexact_list_eqb l1 l2 && str_list_eqb n1 n2
   | BQuery r1, BQuery r2 => res_eqb qmatrix_eqb r1 r2
   | BQueryP r1, BQueryP r2 =>
       res_eqb (fun a b => qmatrix_eqb (fst a) (fst b) && qmatrix_eqb (snd a) (snd b)) r1 r2
@@ -527,4 +577,4 @@ Definition obs_eqb (a b : obs) : bool :=
 (* the in-place mode recorded by the harness must be the one read from the class by tools/gen_c12.py *)
 Definition check_c12 (c : c12case) : bool :=
   inplace_mode_eqb (k_mode c) repo_inplace_mode &&
-  list_eqb obs_eqb (observe_all (k_mode c) (k_ops c) (net0 (A := Q))) (k_obs c).
+  list_eqb obs_eqb (observe_all (k_mode c) (k_lossy c) (k_ops c) (mkJ (net0 (A := Q)) false)) (k_obs c).
